@@ -837,6 +837,32 @@ func (e *evalEnv) call(x *ast.CallExpr) tv {
 				return tv{term: g.havoc(e.a.nm("called"), "Bool"), typ: tBool}
 			}
 			return tv{term: rec.reach, typ: tBool}
+		case "aftercall":
+			// aftercall("F", e): the value e had right after the call of F made by the function under verification returned
+			if e.atCallSite {
+				panic(ownProofOnly{})
+			}
+			if e.a == nil || len(x.Args) != 2 {
+				e.fail(x, "aftercall(\"F\", expr)")
+			}
+			top := e.a
+			for top.parent != nil {
+				top = top.parent
+			}
+			rec := top.lastCall[qualifyKey(stringLit(x.Args[0]), e.pkg.Name())]
+			if rec == nil || rec.ambiguous || rec.post == nil {
+				// no such call (or several): nothing is known about the value
+				v := e.value(e.eval(x.Args[1]))
+				if v.spec || v.typ == nil {
+					e.fail(x, "aftercall: the function makes no single call of %s", stringLit(x.Args[0]))
+				}
+				return tv{term: g.havoc(e.a.nm("nocall"), g.sortOf(v.typ)), typ: v.typ}
+			}
+			saved := e.st
+			e.st = rec.post
+			v := e.value(e.eval(x.Args[1]))
+			e.st = saved
+			return v
 		case "callarg", "callresult":
 			// callarg("F", i) / callresult("F", i): the i-th argument (receiver first) / result of the call of F made by the
 			// function under verification (which must have one call site of F); arbitrary when no such call was made
